@@ -56,27 +56,61 @@ PY_PRELUDE = {
 }
 
 
-def run_py(src):
+def run_py(src, modules=None):
+    """CPython: helper modules are real module objects in sys.modules for the duration of the run"""
+    import types
+
     g = dict(PY_PRELUDE)
     g["__name__"] = "pv_mod"
+    added = []
     try:
+        for name, msrc in (modules or {}).items():
+            mod = types.ModuleType(name)
+            mod.__dict__.update(PY_PRELUDE)
+            exec(compile(msrc, name, "exec"), mod.__dict__)  # pylint: disable=exec-used
+            sys.modules[name] = mod
+            added.append(name)
         exec(compile(src, "<pv>", "exec"), g)  # pylint: disable=exec-used
-    except RecursionError as e:
+    except RecursionError:
         return {"kind": "exc", "type": "RecursionError", "msg": ""}
     except Exception as e:  # pylint: disable=broad-except
         return exc_obs(e)
+    finally:
+        for name in added:
+            sys.modules.pop(name, None)
     return {"kind": "ok", "R": canon(g.get("R", {"o": "unset"}))}
 
 
-async def run_ps(new_interp, src):
+async def run_ps(new_interp, src, modules=None, pyscript_dir=None):
+    """real pyscript: helper modules are real files under <config>/pyscript/modules, loaded by the real
+    GlobalContext.module_import when the script's import statement runs"""
+    import os
+
+    from custom_components.pyscript.global_ctx import GlobalContextMgr
+
     a, _gc = new_interp("pvc03")
+    paths = []
     try:
+        for name, msrc in (modules or {}).items():
+            os.makedirs(os.path.join(pyscript_dir, "modules"), exist_ok=True)
+            path = os.path.join(pyscript_dir, "modules", name + ".py")
+            with open(path, "w", encoding="utf-8") as f:
+                f.write(msrc)
+            paths.append((name, path))
         a.parse(src)
         await a.eval()
     except RecursionError:
         return {"kind": "exc", "type": "RecursionError", "msg": ""}, a
     except Exception as e:  # pylint: disable=broad-except
         return exc_obs(e), a
+    finally:
+        for name, path in paths:
+            try:
+                os.unlink(path)
+            except OSError:
+                pass
+            if GlobalContextMgr.get("modules." + name):
+                GlobalContextMgr.delete("modules." + name)
     return {"kind": "ok", "R": canon(a.global_sym_table.get("R", {"o": "unset"}))}, a
 
 
@@ -159,10 +193,20 @@ async def main():
         async with async_test_home_assistant(config_dir=tmp) as hass:
             reset_pyscript_class_state()
             interp_env_setup(hass, allow_all_imports=True)
+            from custom_components.pyscript.const import CONFIG_ENTRY, DOMAIN
+            from custom_components.pyscript.decorator import DecoratorRegistry
+
+            legacy = False
+            pdir = hass.config.path("pyscript")
             for case in req["cases"]:
                 src = case["src"]
-                ps, _a = await run_ps(new_interp, src)
-                ob = {"ps": ps, "py": run_py(src)}
+                if bool(case.get("legacy", False)) != legacy:
+                    # switch the decorator subsystem: legacy_decorators true = registry empty (trigger.py path)
+                    legacy = bool(case.get("legacy", False))
+                    interp_env_setup(hass, allow_all_imports=True, legacy=legacy)
+                    DecoratorRegistry.init(hass, hass.data[DOMAIN][CONFIG_ENTRY])
+                ps, _a = await run_ps(new_interp, src, case.get("modules"), pdir)
+                ob = {"ps": ps, "py": run_py(src, case.get("modules"))}
                 if req["op"] == "scope":
                     ob["ps_static"] = await ps_static(new_interp, src, case["func"])
                     ob["py_static"] = py_static(src, case["func"])
